@@ -15,6 +15,7 @@ THEOREMS = {
             "ShipVerif.Ski.normalize_idem", "ShipVerif.Ski.normalize_canonical", "ShipVerif.Ski.ops_eq"],
     "C18": ["ShipVerif.Hub.C18_notifications_converge", "ShipVerif.Hub.C18_quiescent", "ShipVerif.Hub.C18_fifo", "ShipVerif.Hub.J_step", "ShipVerif.Hub.cs_names"],
     "C11": ["ShipVerif.Hub.C11_registry"],
+    "C01": ["ShipVerif.Hub.C10_trust_sources", "ShipVerif.Hub.C10_unregister_effect", "ShipVerif.Hub.C10_cancel_effect"],
 }
 IMPORTS = ["ShipVerif.Props.HubProps", "ShipVerif.Props.C15"]
 ENDED = {38, 14, 15, 16, 17, 39}
@@ -46,6 +47,8 @@ def project(pid, line):
     if pid == "C10":
         return (sorted(o for o in others if o.split(":")[0] in ("dial", "close", "abort", "approve")),
                 sorted((k, v.get("t"), v.get("n"), v.get("r")) for k, v in rows.items() if v.get("t") == "1" or v.get("n") != "-" or v.get("r") == "1"))
+    if pid == "C01":
+        return sorted((k, v.get("t")) for k, v in rows.items() if v.get("t") == "1")
     if pid == "C18":
         return (pairs, sorted((k, v.get("d")) for k, v in rows.items() if v.get("d") != "0"))
     if pid == "C11":
@@ -59,9 +62,11 @@ def predicates(pid, ins, impl):
     hist = []
     scn = -1
     intent, reg, st, lastp, shut = {}, {}, {}, {}, False
+    trusted = {}
     for i, ev in enumerate(ins):
         if ev == "new":
             hist, intent, reg, st, lastp, shut = [], {}, {}, {}, {}, False
+            trusted = {}
             scn += 1
             continue
         if i >= len(impl):
@@ -83,6 +88,13 @@ def predicates(pid, ins, impl):
             bad.append({"scenario": scn, "history": list(hist), "impl": out, "why": why})
 
         if w[0] == "burst":
+            if pid == "C01":
+                has13 = any(part.split(":")[0] == "13" for part in w[2].split(","))
+                for kk in set(list(trusted) + list(rows)):
+                    now = rows.get(kk, {}).get("t", "0") == "1"
+                    if now and not trusted.get(kk, False) and not (has13 and kk == w[1]):
+                        bad.append({"scenario": scn, "history": list(hist), "impl": out, "why": "the hub started to answer 'paired' for %s without registration or hello-ok" % kk})
+                    trusted[kk] = now
             for part in w[2].split(","):
                 stn = part.split(":")[0]
                 if stn == "13":
@@ -117,6 +129,16 @@ def predicates(pid, ins, impl):
                         fail("CancelPairingWithSKI left connection %d (handshake state %s, not ended) able to complete later" % (cid, after))
                 if rows.get(k, {}).get("t", "0") != "0":
                     fail("the SKI is still trusted after CancelPairingWithSKI")
+        if pid == "C01":
+            # the answer the hub gives a connection that asks "is this SKI paired?" changes only with user intent or hello-ok
+            for kk in set(list(trusted) + list(rows)):
+                now = rows.get(kk, {}).get("t", "0") == "1"
+                was = trusted.get(kk, False)
+                if now and not was and not ((w[0] == "register" and k == kk) or (w[0] == "connupdate" and w[1] == kk and w[2] == "13")):
+                    fail("the hub started to answer 'paired' for %s although the user did not register it and no connection of it reported hello-ok" % kk)
+                if w[0] in ("unregister", "cancel") and k == kk and now:
+                    fail("the hub still answers 'paired' for %s after %s" % (kk, w[0]))
+                trusted[kk] = now
         if pid == "C11" and w[0] == "connclosed":
             cid = int(w[2])
             if others.count("disc:" + k) != 1:
